@@ -40,20 +40,23 @@ func profiles() map[string]world.Profile {
 	svc := map[string]int{"CreateLocation": 4, "AddFact": 22, "RemFact": 8, "GetFact": 12, "SearchFacts": 12, "AddRule": 12,
 		"RemRule": 6, "EnableRule": 6, "SetParents": 5, "GetParents": 3, "Clear": 2, "StateSize": 3,
 		"ListRules": 4, "ProcessEvent": 12, "BadRequest": 8}
+	expiryRules := map[string]int{"AddRule": 22, "RemRule": 4, "ProcessEvent": 40, "Sleep": 10, "Reload": 4, "GetRule": 4,
+		"ListRules": 3, "SearchRules": 5, "AddFact": 3}
 	ids := []string{"f1", "f2", "f3"}
 	return map[string]world.Profile{
-		"facts":    {Name: "facts", Len: 40, Locs: []string{"A"}, Ids: ids, MaxFacts: 1000, Weights: facts},
-		"cascade":  {Name: "cascade", Len: 40, Locs: []string{"A"}, Ids: []string{"f1", "f2", "f3", "f4"}, MaxFacts: 1000, Weights: cascade, Cascade: true},
-		"rules":    {Name: "rules", Len: 40, Locs: []string{"A"}, Ids: []string{"r1", "r2", "f1"}, Rules: true, MaxFacts: 1000, Weights: rules},
-		"expiry":   {Name: "expiry", Len: 30, Locs: []string{"A"}, Ids: ids, Rules: true, Expiry: true, Cascade: true, MaxFacts: 1000, Weights: expiry},
-		"guards":   {Name: "guards", Len: 50, Locs: []string{"A"}, Ids: ids, Rules: true, Keys: true, MaxFacts: 1000, Weights: guards},
-		"capacity": {Name: "capacity", Len: 40, Locs: []string{"A"}, Ids: []string{"f1", "f2", "f3", "f4", "f5"}, Rules: true, MaxFacts: 3, Weights: capacity},
-		"lifecycle": {Name: "lifecycle", Len: 45, Locs: []string{"A", "B"}, Ids: []string{"r1", "r2"}, Rules: true, Parents: true, MaxFacts: 1000, Weights: lifecycle},
-		"dispatch": {Name: "dispatch", Len: 40, Locs: []string{"A", "B"}, Ids: []string{"r1", "r2", "r3", "f1", "f2"}, Rules: true, Dispatch: true, Parents: true, MaxFacts: 1000, Weights: dispatch},
-		"index":    {Name: "index", Len: 50, Locs: []string{"A"}, Ids: []string{"r1", "r2", "r3", "r4"}, Rules: true, Index: true, MaxFacts: 1000, Weights: index},
-		"system":   {Name: "system", Len: 50, Locs: []string{"A", "B", "C"}, Ids: []string{"f1", "f2", "r1", "r2"}, Rules: true, Parents: true, Cascade: true, MaxFacts: 1000, Weights: system},
-		"service":  {Name: "service", Len: 50, Locs: []string{"A", "B"}, Ids: []string{"f1", "r 1", "a\"b", "x&y=z", "%25+\u00fc"}, Rules: true, Parents: true, MaxFacts: 1000, Weights: svc},
-		"parents":  {Name: "parents", Len: 45, Locs: []string{"A", "B", "C"}, Ids: []string{"f1", "f2", "r1", "r2"}, Rules: true, Parents: true, MaxFacts: 1000, Weights: parents},
+		"facts":        {Name: "facts", Len: 40, Locs: []string{"A"}, Ids: ids, MaxFacts: 1000, Weights: facts},
+		"cascade":      {Name: "cascade", Len: 40, Locs: []string{"A"}, Ids: []string{"f1", "f2", "f3", "f4"}, MaxFacts: 1000, Weights: cascade, Cascade: true},
+		"rules":        {Name: "rules", Len: 40, Locs: []string{"A"}, Ids: []string{"r1", "r2", "f1"}, Rules: true, MaxFacts: 1000, Weights: rules},
+		"expiry":       {Name: "expiry", Len: 30, Locs: []string{"A"}, Ids: ids, Rules: true, Expiry: true, Cascade: true, MaxFacts: 1000, Weights: expiry},
+		"guards":       {Name: "guards", Len: 50, Locs: []string{"A"}, Ids: ids, Rules: true, Keys: true, SideEffects: true, MaxFacts: 1000, Weights: guards},
+		"capacity":     {Name: "capacity", Len: 40, Locs: []string{"A"}, Ids: []string{"f1", "f2", "f3", "f4", "f5"}, Rules: true, MaxFacts: 3, Weights: capacity},
+		"lifecycle":    {Name: "lifecycle", Len: 45, Locs: []string{"A", "B"}, Ids: []string{"r1", "r2"}, Rules: true, Parents: true, MaxFacts: 1000, Weights: lifecycle},
+		"dispatch":     {Name: "dispatch", Len: 40, Locs: []string{"A", "B"}, Ids: []string{"r1", "r2", "r3", "f1", "f2"}, Rules: true, Dispatch: true, Parents: true, MaxFacts: 1000, Weights: dispatch},
+		"index":        {Name: "index", Len: 50, Locs: []string{"A"}, Ids: []string{"r1", "r2", "r3", "r4"}, Rules: true, Index: true, MaxFacts: 1000, Weights: index},
+		"system":       {Name: "system", Len: 50, Locs: []string{"A", "B", "C"}, Ids: []string{"f1", "f2", "r1", "r2"}, Rules: true, Parents: true, Cascade: true, MaxFacts: 1000, Weights: system},
+		"service":      {Name: "service", Len: 50, Locs: []string{"A", "B"}, Ids: []string{"f1", "r 1", "a\"b", "x&y=z", "%25+\u00fc"}, Rules: true, Parents: true, MaxFacts: 1000, Weights: svc},
+		"expiry-rules": {Name: "expiry-rules", Len: 36, Locs: []string{"A"}, Ids: []string{"r1", "r2", "r3"}, Rules: true, Index: true, Expiry: true, MaxFacts: 1000, Weights: expiryRules},
+		"parents":      {Name: "parents", Len: 45, Locs: []string{"A", "B", "C"}, Ids: []string{"f1", "f2", "r1", "r2"}, Rules: true, Parents: true, SideEffects: true, MaxFacts: 1000, Weights: parents},
 	}
 }
 
